@@ -185,6 +185,8 @@ def run(chk):
     check_cases(chk, codec.threshold_cases(chk))
     codec.check_inplace(chk, "C02", 200 if chk.tier == "quick" else 3000)
     codec.check_layouts(chk, "C02", 240 if chk.tier == "quick" else 3000)
+    codec.check_trimmed(chk, "C02", 96 if chk.tier == "quick" else 1200)
+    codec.check_stray_attributes(chk, "C02", 30 if chk.tier == "quick" else 400)
     boundary_labels(chk)
     after_refused_calls(chk)
     zero_frame_blocks(chk)
@@ -242,7 +244,8 @@ def zero_frame_blocks(chk):
 
 def after_refused_calls(chk):
     """a block that has just REFUSED a call (a bulk assignment with a bad element after good ones, a taken channel, a
-    track of the wrong length, a wrong kind of object, an index out of range) is still a valid block: its declared
+    track of the wrong length, a wrong kind of object, an index out of range), or taken a bulk call whose two lists are
+    not equally long (the surplus is ignored), is still a valid block: its declared
     size, the bytes it writes and the bytes its decoder consumes agree — also after one more successful add"""
     import io
     import numpy as np
@@ -279,13 +282,16 @@ def after_refused_calls(chk):
                 menu += [("platforms = [(7, good), (7, good)]", lambda: setattr(b, "platforms", [(7, good(3)), (7, good(4))])),
                          ("add_platforms([good, None])", lambda: b.add_platforms([good(5), None])),
                          ("add_platforms([good, good], [1, 1])", lambda: b.add_platforms([good(6), good(7)], [1, 1])),
+                         ("add_platforms([good, good], range(20, 26))", lambda: b.add_platforms([good(10), good(11)], range(20, 26))),
+                         ("add_platforms([good, good, good], [30])", lambda: b.add_platforms([good(12), good(13), good(14)], [30])),
+                         ("add_platforms([good], (40, 41, 3))", lambda: b.add_platforms([good(15)], (40, 41, 3))),
                          ("remove_platforms([0, 99])", lambda: b.remove_platforms([0, 99])),
                          ("remove_platform(99)", lambda: b.remove_platform(99))]
             if kind == "EM":
                 menu += [("removeSignal(absent)", lambda: b.removeSignal("nobody")),
                          ("addSignal(short)", lambda: b.addSignal(EMGTrack("s", np.zeros(1, dtype="<f4"))))]
             more = ("add(good)", lambda: add(good(9)))
-        for name, thunk in rng.sample(menu, rng.randrange(1, 3)) + [more]:
+        for name, thunk in rng.sample(menu, rng.randrange(1, 4)) + [more]:
             try:
                 thunk()
                 calls.append(name + " -> ok")
